@@ -2,6 +2,7 @@ mod c01;
 mod c02;
 mod c06;
 mod c07;
+mod c09;
 mod eng;
 mod gen;
 mod mdoc;
@@ -57,6 +58,7 @@ fn main() {
         "C02" => c02::run(tier),
         "C06" => c06::run(tier),
         "C07" => c07::run(tier),
+        "C09" => c09::run(tier),
         x => {
             eprintln!("unknown check {}", x);
             2
